@@ -7,7 +7,7 @@
 #error "verification-only header"
 #endif
 
-#ifdef COVER
+#ifdef CV_COVER_PASS
 /* cover pass: contract assertions are dropped, each reachability witness becomes an
  * assertion that MUST FAIL (cbmc's __CPROVER_cover statement is not usable here) */
 #define ASSERT(c, msg)
